@@ -174,10 +174,7 @@ func c01(c *Ctx) {
 	}
 	// (a) routing: explicit paths, one base variant in quick, all in thorough
 	lit := 0
-	bases := []int{1 + int(c.Seed)%4}
-	if c.Thorough() {
-		bases = []int{0, 1, 2, 3, 4}
-	}
+	bases := []int{0, 1, 2, 3, 4} // every base_path class in both tiers (quick thins values, not bases)
 	for n, bi := range bases {
 		for _, sub := range []string{"main", "pathquery", "bodyquery", "shared"} {
 			pkg := fmt.Sprintf("c01.r%d%s", n, sub)
